@@ -124,6 +124,7 @@ def make_jobs(items, want, N, settings=None, timeout=150, extra=None):
         for k in ("dparam", "term_goals", "stat_goals", "K", "force_cyclic", "user_typed", "tail_goals", "solvability_check"):
             if k in it:
                 j[k] = it[k]
+        j["want"] += [w for w in it.get("want_extra", []) if w not in j["want"]]
         jobs.append(j)
     return jobs
 
@@ -290,8 +291,9 @@ def b_recs(ctx):
     ctx.note("equations", len(seen))
 
 
-def live_start(P):
-    """variables whose start value may be read before the program assigns them (flat IR or structured code)"""
+def live_start(P, guarded=False):
+    """variables whose start value may be read before the program assigns them (flat IR or structured code);
+    guarded: the source loop has a guard (then what every conditional statement carries is the guard)"""
     live, assigned = set(), set()
 
     def pvars(p):
@@ -309,7 +311,8 @@ def live_start(P):
     def conj(c):
         return conj(c[1]) | conj(c[2]) if c[0] == "and" else ({repr(c)} if c[0] != "true" else set())
     flat = [s_ for s_ in P["body"] if s_[0] in ("assign", "draw")]
-    common = set.intersection(*[conj(s_[3]) for s_ in flat]) if flat and len(flat) == len(P["body"]) else set()
+    conditional = [s_ for s_ in flat if s_[3] != ("true",)]     # copies of old values made for conditions stay unconditional
+    common = set.intersection(*[conj(s_[3]) for s_ in conditional]) if guarded and conditional and len(flat) == len(P["body"]) else set()
 
     def keeps(s_):
         """the default is read when the condition is false.  Keeping itself is no read if the condition is only what
@@ -355,7 +358,7 @@ def live_start(P):
 def b_types(ctx):
     """C05: inferred finite types contain every value ever held (checked after every statement)"""
     user = set((ctx.it.get("types") or {}).keys()) | set(ctx.res.get("user_typed", []))
-    live = live_start(ctx.normP)
+    live = live_start(ctx.normP, guarded=ctx.srcP["guard"] != ("true",))
     k = 0
     for v, vals in ctx.res.get("typedefs", {}).items():
         if v in user or v not in ctx.normP["vars"]:
@@ -466,6 +469,24 @@ def b_sens(ctx):
                     ctx.note("sens_" + next(iter(val)))
                     if "free" in val:
                         ctx.direct.append({"clause": "free-symbol", "goal": g, "n": n, "method": method, "polar_value": val})
+
+
+def b_sens_cli(ctx):
+    """C10: the values the sensitivity action prints (both methods, --at_n) equal the derivative of the exact moment"""
+    if ctx.res.get("stage"):
+        raise SkipTrace("refused")
+    P = ctx.srcP
+    for method, per_goal in ctx.res.get("sens_cli", {}).items():
+        for g, vals in per_goal.items():
+            poly = absyn.mono_of(g)
+            if any(v not in P["vars"] for v, _ in poly[0][1]):
+                continue
+            for n, val in enumerate(vals[ctx.pi][:ctx.N + 1]):
+                if "q" in val:
+                    ctx.claim(n, {"t": "mom", "pi": ctx.src, "poly": poly, "val": F(val["q"]), "part": "b",
+                                  "tag": f"cli_{method}:{g}"})
+                else:
+                    ctx.note("sens_cli_" + next(iter(val)))
 
 
 def b_stats(ctx):
